@@ -62,7 +62,7 @@ PROFILES = {
     "invalid": {"p_invalid_props": 0.35, "calls": 30},
     "garbage": {"p_garbage": 0.12, "p_bad_connack": 0.25, "p_dead_call": 0.8, "p_inbound": 0.5, "calls": 30,
                 "p_session_loss": 0.3},
-    "timing": {"time": True, "ska": [0, 0, 1, 2, 4, 7, 12, 65535], "p_no_pingresp": 0.3, "w_poll": 16, "w_recv": 4,
+    "timing": {"p_wzero": 0.05, "time": True, "ska": [0, 0, 1, 2, 4, 7, 12, 65535], "p_no_pingresp": 0.3, "w_poll": 16, "w_recv": 4,
                "p_cancel": 0.03, "calls": 30, "p_delay": 0.5},
     "stall": {"time": True, "p_stall": 0.3, "p_pend": 0.35, "p_partial": 0.6, "ska": [0, 2, 4], "w_poll": 10, "calls": 30,
               "p_cancel": 0.1, "p_delay": 0.3},
@@ -102,7 +102,7 @@ COMMON = [
     ("timing", TIME_CFGS, 39, 650),
     ("keepalive", TIME_CFGS, 39, 650),
     ("stall", [TIME_CFGS[2], TIME_CFGS[4], TIME_CFGS[6], TIME_CFGS[10]], 32, 320),
-    ("wrap", [BASE_CFGS[4], BASE_CFGS[0]], 30, 300),
+    ("wrap", [BASE_CFGS[4], BASE_CFGS[0]], 60, 400),
     ("ackcancel", BASE_CFGS[:2], 40, 400),
     ("sessions", BASE_CFGS[:3], 45, 450),
     ("pingcancel", [TIME_CFGS[2], TIME_CFGS[4], TIME_CFGS[6]], 30, 300),
@@ -129,7 +129,7 @@ SPECIFIC = {
     "C19": ["legality", "downgrade"],
     "C11": ["vectors"],
     "C12": ["readersim", "limitsim"],
-    "C14": ["vectors", "readersim", "maxima", "limitsim"],
+    "C14": ["vectors", "readersim", "maxima", "limitsim", "replies"],
     "C10": ["timesim"],
     "C13": ["twins-cancel", "twins-fragcancel"],
     "C15": ["twins-fragment", "twins-stall", "twins-fragcancel", "readersim"],
